@@ -18,13 +18,17 @@ pub struct Failure {
     pub cfg: HistCfg,
     pub ops: Vec<String>,
     pub at: usize,
+    /// (callback class, n): a panic was injected at the n-th callback of that class during ops[at]
+    pub inject: Option<(usize, u64)>,
 }
 
 impl Failure {
     pub fn to_json(&self) -> J {
-        J::obj().set("property", J::s(self.prop)).set("signature", J::s(&self.sig)).set("message", J::s(&self.msg))
-            .set("kind", J::s("history")).set("cfg", J::s(&self.cfg.to_text())).set("failing_event", J::us(self.at))
-            .set("ops", J::strs(self.ops.iter().cloned()))
+        let mut j = J::obj().set("property", J::s(self.prop)).set("signature", J::s(&self.sig)).set("message", J::s(&self.msg))
+            .set("kind", J::s(if self.inject.is_some() { "inject" } else { "history" })).set("cfg", J::s(&self.cfg.to_text())).set("failing_event", J::us(self.at))
+            .set("ops", J::strs(self.ops.iter().cloned()));
+        if let Some((c, n)) = self.inject { j.put("inject_class", J::s(CLASS_NAMES[c])); j.put("inject_n", J::u(n)); }
+        j
     }
 }
 
@@ -38,13 +42,14 @@ pub struct RunOut {
 
 impl RunOut {
     pub fn new() -> RunOut { RunOut { stats: Stats::default(), failures: Vec::new(), viol_counts: HashMap::new(), gate_broken_histories: 0 } }
-    pub fn record(&mut self, viols: &[Viol], cfg: &HistCfg, ops: &[Op], at: usize) {
+    pub fn record(&mut self, viols: &[Viol], cfg: &HistCfg, ops: &[Op], at: usize) { self.record_ex(viols, cfg, ops, at, None) }
+    pub fn record_ex(&mut self, viols: &[Viol], cfg: &HistCfg, ops: &[Op], at: usize, inject: Option<(usize, u64)>) {
         for v in viols {
             *self.viol_counts.entry(v.prop).or_insert(0) += 1;
             let kept = self.failures.iter().filter(|f| f.prop == v.prop).count();
             let same_sig = self.failures.iter().filter(|f| f.prop == v.prop && f.sig == v.sig).count();
             if kept < 12 && same_sig < 3 {
-                self.failures.push(Failure { prop: v.prop, sig: v.sig.clone(), msg: v.msg.clone(), cfg: cfg.clone(), ops: ops.iter().map(|o| o.to_text()).collect(), at });
+                self.failures.push(Failure { prop: v.prop, sig: v.sig.clone(), msg: v.msg.clone(), cfg: cfg.clone(), ops: ops.iter().map(|o| o.to_text()).collect(), at, inject });
             }
         }
     }
